@@ -1129,6 +1129,19 @@ class Interp:
         raise Unsupported('subscript of %r' % type(obj))
 
     def dict_get(self, d, key):
+        if type(key).__name__ == 'SStr' or any(
+                type(k).__name__ == 'SStr' for k in d):
+            for k in list(d.keys()):
+                if isinstance(k, str) or type(k).__name__ == 'SStr':
+                    if not (isinstance(key, str) or
+                            type(key).__name__ == 'SStr'):
+                        continue
+                    e = self.ops.equals(k, key)
+                    if self.ctx.branch(e) if isinstance(e, Sym) else e:
+                        return d[k]
+                elif k == key:
+                    return d[k]
+            raise_('KeyError', key)
         if isinstance(key, Sym):
             for k in list(d.keys()):
                 e = self.ops.equals(k, key)
@@ -1161,7 +1174,16 @@ class Interp:
                 raise_('IndexError', 'list assignment index out of range')
             return
         if isinstance(obj, dict) and type(idx).__name__ == 'SStr':
-            raise Unsupported('structured-string key in a plain dict')
+            # structured-string keys are stored by identity; an existing key
+            # that is (symbolically) equal is overwritten
+            for k in list(obj.keys()):
+                if isinstance(k, str) or type(k).__name__ == 'SStr':
+                    e = self.ops.equals(k, idx)
+                    if self.ctx.branch(e) if isinstance(e, Sym) else e:
+                        obj[k] = v
+                        return
+            obj[idx] = v
+            return
         if isinstance(obj, dict):
             if isinstance(idx, Sym):
                 for k in list(obj.keys()):
